@@ -103,15 +103,26 @@ def tlaps(workdir, module, timeout=1200):
     """check the proofs of a module with the TLA+ proof system; returns the number of obligations proved"""
     t0 = time.time()
     shutil.copy(spec_files(module + ".tla")[0], workdir)
+    # tlapm starts back-end provers (z3, zenon, isabelle) as children: own process group, killed as a whole afterwards,
+    # so that no prover survives a timeout or a failed proof and keeps a core busy
+    import signal
+    proc = subprocess.Popen(["tlapm", "--threads", "8", "--cleanfp", module + ".tla"], cwd=workdir, stdout=subprocess.PIPE,
+                            stderr=subprocess.STDOUT, text=True, start_new_session=True)
     try:
-        p = subprocess.run(["tlapm", "--threads", "8", "--cleanfp", module + ".tla"], cwd=workdir, stdout=subprocess.PIPE,
-                           stderr=subprocess.STDOUT, text=True, timeout=timeout)
+        out, _ = proc.communicate(timeout=timeout)
     except subprocess.TimeoutExpired:
+        out = None
+    finally:
+        try:
+            os.killpg(proc.pid, signal.SIGKILL)
+        except (ProcessLookupError, PermissionError):
+            pass
+    if out is None:
         raise NoVerdict("tlapm %s timed out" % module)
-    m = re.search(r"All (\d+) obligations? proved", p.stdout)
-    if p.returncode != 0 or not m:
+    m = re.search(r"All (\d+) obligations? proved", out)
+    if proc.returncode != 0 or not m:
         raise NoVerdict("tlapm %s did not prove every obligation (a proof that does not go through is not a verdict about the code):\n%s"
-                        % (module, p.stdout[-4000:]))
+                        % (module, out[-4000:]))
     return int(m.group(1)), time.time() - t0
 
 
